@@ -398,6 +398,9 @@ static void ownership_access(const void *addr, unsigned size, int is_store) {
 // ------------------------------------------------------------------------------------------------
 // guarded trace probes in libhtp (-DOISF_LIBHTP_VERIF): reach counters + call-site attribution
 
+// tuning knob behind a guarded hook (htp_decompressors.h): output buffer size of the decompressors; set per plan, never during a run
+extern "C" { size_t htp_verif_gzip_buf_size = 8192; }
+
 extern "C" void htp_verif_probe(const char *site, htp_connp_t *connp, long a, long b) {
     Exec *ex = g_ex;
     if (!ex || !site) return;
@@ -473,9 +476,10 @@ static int data_cb(int hook, htp_tx_data_t *d) {
                         bool decoding = s == 0 ? (tx->request_content_encoding > HTP_COMPRESSION_NONE) : (tx->response_content_encoding_processing > HTP_COMPRESSION_NONE);
                         if (decoding) {
                             int64_t el = s == 0 ? tx->request_entity_len : tx->response_entity_len, ml = s == 0 ? tx->request_message_len : tx->response_message_len;
-                            int64_t lim = std::max<int64_t>((int64_t) cfg->compression_bomb_limit, 2048 * ml) + 8192;
+                            int64_t lim = std::max<int64_t>((int64_t) cfg->compression_bomb_limit, 2048 * ml) + (int64_t) htp_verif_gzip_buf_size;
                             if (el > lim) violate(ex, "C07", s ? "C07.response_bomb_bound" : "C07.request_bomb_bound", strfmt("tx#%d delivered=%lld compressed=%lld limit=%d", r->ordinal, (long long) el, (long long) ml, (int) cfg->compression_bomb_limit));
-                            int layers = 0, lz = 0; for (htp_decompressor_t *q = dc; q && layers < 100; q = q->next) { layers++; if (((htp_decompressor_gzip_t *) q)->zlib_initialized == HTP_COMPRESSION_LZMA) lz++; }
+                            // (an instance in pass-through mode applies no decoding: "LZMA decompression disabled", a decoder that gave up)
+                            int layers = 0, lz = 0, chain = 0; for (htp_decompressor_t *q = dc; q && chain < 100; q = q->next) { chain++; if (q->passthrough) continue; layers++; if (((htp_decompressor_gzip_t *) q)->zlib_initialized == HTP_COMPRESSION_LZMA) lz++; }
                             if (s == 1 && cfg->response_decompression_layer_limit > 0 && layers > cfg->response_decompression_layer_limit && layers > 1)
                                 violate(ex, "C07", "C07.too_many_layers", strfmt("tx#%d layers=%d limit=%d", r->ordinal, layers, cfg->response_decompression_layer_limit));
                             if (s == 1 && lz > cfg->response_lzma_layer_limit) violate(ex, "C07", "C07.too_many_lzma_layers", strfmt("tx#%d lzma layers=%d limit=%d", r->ordinal, lz, cfg->response_lzma_layer_limit));
@@ -1076,6 +1080,7 @@ void execute_plan(const Plan &p, RunResult &R) {
     if (p.alloc_fail_at) { g_seams.fail_at = (uint64_t) p.alloc_fail_at; g_seams.fail_sustained = p.alloc_sustained != 0; }
     ex.disposal = p.cfg.get("disposal", 0);
     ex.null_ts = p.cfg.get("null_ts", 0) != 0;
+    htp_verif_gzip_buf_size = (size_t) std::max<long>(16, p.cfg.get("gzip_buf", 8192));
     R = RunResult();
     R.conns.resize(p.conns.size());
     ex.conns.resize(p.conns.size());
